@@ -479,9 +479,14 @@ void World::opRaw(const Item& op)
     {
         if (m.tag != "m")
             continue;
+        const int64_t reps = std::min<int64_t>(std::max<int64_t>(1, m.get("rep", 1)), 5000);
+        for (int64_t rq = 0; rq < reps; ++rq)
+        {
         const int kind = static_cast<int>(m.get("kind", 0));
-        const uint32_t id = static_cast<uint32_t>(m.get("id", 1));
+        const uint32_t id = static_cast<uint32_t>(m.get("id", 1)) + static_cast<uint32_t>(rq);
         size_t len = static_cast<size_t>(std::min<int64_t>(std::max<int64_t>(0, m.get("len", 0)), 65535));
+        if (f.bytes.size() + wire::MSG_HDR + len > 400000)
+            break;
         Bytes body;
         if (kind != wire::K_GENERIC && !m.get("rawbody", 0))
             body = makePayload(kind, len, id);
@@ -547,6 +552,7 @@ void World::opRaw(const Item& op)
             e.validity = wire::classify(h.mtype, mh.ptype, body.data(), body.size());
             e.msgId = id;
             exps.push_back(std::move(e));
+        }
         }
     }
     size_t trail = static_cast<size_t>(std::min<int64_t>(std::max<int64_t>(0, op.get("trail", 0)), 4096));
